@@ -91,7 +91,32 @@ OPS = [
     ('get_spine_ids', 1, lambda doc, p: doc.get_spine_ids()),
     ('graph', 1, lambda doc, p: _graph(doc)),
     ('clone+dumps', 1, lambda doc, p: kp.dumps(doc.clone())),
+    ('get_all_tokens(empty filter)', 3, lambda doc, p: _norm_tokens(doc.get_all_tokens(filter_by_categories=([], (), set())[p]))),
+    ('get_unique_tokens(empty filter)', 2, lambda doc, p: _norm_tokens(doc.get_unique_tokens(filter_by_categories=([], set())[p]))),
+    ('frequencies(empty filter)', 1, lambda doc, p: sorted(doc.frequencies(token_categories=[]).items())),
+    ('one Exporter object reused', 4, lambda doc, p: _exporter_reuse(doc, p)),
 ]
+
+
+def _exporter_reuse(doc, p):
+    """kp.Exporter is public: one object used for several exports / queries must answer like fresh ones."""
+    e = kp.Exporter()
+    EO = kp.ExportOptions
+    if p == 0:
+        a = e.get_spine_types(doc)
+        b = e.export_string(doc, EO())
+        return (a, b, b == kp.dumps(doc))
+    if p == 1:
+        a = e.export_string(doc, EO(kern_type=kp.Encoding.eKern))
+        b = e.export_string(doc, EO(kern_type=kp.Encoding.eKern, token_categories=TC.valid(exclude=[TC.DECORATION])))
+        return (a, b, b == kp.dumps(doc, encoding=kp.Encoding.eKern, exclude=[TC.DECORATION]))
+    if p == 2:
+        a = e.export_string(doc, EO(token_categories=TC.valid(include=[TC.BARLINES, TC.STRUCTURAL])))
+        b = e.export_string(doc, EO())
+        return (a, b, b == kp.dumps(doc))
+    a = e.export_string(doc, EO(spine_ids=[0], kern_type=kp.Encoding.bEkern))
+    b = e.export_string(doc, EO(kern_type=kp.Encoding.bEkern))
+    return (a, b, b == kp.dumps(doc, encoding=kp.Encoding.bEkern))
 INST = [(i, p) for i, (_, n, _) in enumerate(OPS) for p in range(n)]      # all operation instances
 
 
@@ -128,6 +153,8 @@ def _a_body(d, inst):
     after, g1 = snap(doc), snap_globals()
     check(after == before, f'{_name(inst)} changed the document: {diff(before, after)}')
     check(g1 == g0, f'{_name(inst)} changed module-level state: {diff(g0, g1)}')
+    if OPS[INST[inst][0]][0] == 'one Exporter object reused' and r[0] == 'ok':
+        check(r[1][2] is True, f'{_name(inst)}: the second export of a re-used Exporter object differs from a fresh export: {str(r[1][1])[:300]!r}')
     r2 = run(inst, _fresh(d))
     check(r == r2, f'{_name(inst)}: result on the used document {str(r)[:300]!r} differs from a freshly imported copy {str(r2)[:300]!r}')
     r3 = run(inst, doc)
